@@ -19,7 +19,7 @@ from ..report import Report
 from .c01 import FUNCS
 
 
-def base_spec(shared, hier, n=3, same_sub=False):
+def base_spec(shared, hier, n=3, same_sub=False, homog=False):
     """same_sub: the two sub-circuits are identical (also their weights), so that they can be ONE CircuitTemplate object.
     hier == 2: three levels (top -> m0, m1 -> c0, c1 -> nodes); with same_sub the two mid-level circuits are one object
     as well, and so are all four leaves."""
@@ -37,6 +37,12 @@ def base_spec(shared, hier, n=3, same_sub=False):
             wts = [fp() for _ in range(4)]
         for i in range(n):
             nodes[f"{p}a{i}"] = NodeSpec(['o1'], {}, template=('TA' if shared else None))
+        if homog:
+            # one node type only (a wildcard then addresses nodes that all carry the operator)
+            edges.append(EdgeSpec(f"{p}a0/o1/x", f"{p}a1/o1/u", wts[0]))
+            edges.append(EdgeSpec(f"{p}a1/o1/x", f"{p}a2/o1/w", wts[1]))
+            edges.append(EdgeSpec(f"{p}a2/o1/x", f"{p}a0/o1/u", wts[2]))
+            continue
         nodes[f"{p}b0"] = NodeSpec(['li'], {}, template=('TB' if shared else None))
         if n > 2:
             nodes[f"{p}b1"] = NodeSpec(['li'], {}, template=('TB' if shared else None))
@@ -81,7 +87,7 @@ def gen_history(spec, fp, rnd, length, hier, force=None):
     ops.append(('update_var', f"{allp}o1/x", [float(v) for v in vals]))
     for nn, v in zip(ta, vals):
         exp.nodes[nn].overrides[('o1', 'x')] = v
-    tb, _, _ = addressed(spec, f"{allp}li/x")
+    tb, _, _ = addressed(spec, f"{allp}li/x") if 'li' in {o for ns in spec.nodes.values() for o in ns.ops} else ([], None, None)
     for nn in tb:
         v = fp()
         ops.append(('update_var', f"{nn}/li/x", float(v)))
@@ -89,11 +95,16 @@ def gen_history(spec, fp, rnd, length, hier, force=None):
     names = list(spec.nodes)
     for step_ in range(length):
         kind = rnd.choice(['scalar', 'scalar', 'wild-scalar', 'wild-array', 'edge', 'node_values', 'edge_values',
-                           'partial-wild', 'add-edge', 'zero', 'override-twice'])
+                           'partial-wild', 'add-edge', 'zero', 'override-twice', 'node_values-wild'])
         if force and step_ == 0:
             kind = force
         if kind == 'zero' and hier == 2:
             kind = 'scalar'
+        if kind == 'node_values-wild' and any('li' in ns.ops for ns in spec.nodes.values()):
+            # a wildcard in node_values must only meet nodes that carry the operator (PyRates rejects the others loudly)
+            kind = 'node_values'
+        if kind in ('zero', 'add-edge', 'edge', 'edge_values') and not any('li' in ns.ops for ns in spec.nodes.values()):
+            kind = 'scalar'         # (these kinds address the li nodes / fixed edges of the mixed circuit)
         if kind == 'add-edge' and (hier or any(o[0] == 'add_edge_inplace' for o in ops)):
             kind = 'scalar'
         if kind == 'scalar':
@@ -164,6 +175,19 @@ def gen_history(spec, fp, rnd, length, hier, force=None):
             exp.edges[0] = EdgeSpec(e.src, e.tgt, v2, e.delay, e.spread, e.template, e.edge_overrides)
             ops.append(('update_edge', 'a2/o1/x', 'a0/o1/w', float(v3)))
             exp.edges[-1] = EdgeSpec('a2/o1/x', 'a0/o1/w', v3)
+        elif kind == 'node_values-wild':
+            # apply(node_values=...): one key that addresses several nodes (array: one value per node, in path order),
+            # followed by a key for ONE of these nodes and another variable, followed by a scalar for all of them
+            op = 'o1'
+            cs = [v for v, (k, _) in spec.ops[op].vars.items() if k == 'const']
+            path = f"{allp}{op}/{cs[0]}"
+            tn, _, _ = addressed(spec, path)
+            nv = kw.setdefault('node_values', {})
+            nv[path] = np.array([float(fp()) for _ in tn])
+            if len(cs) > 1:
+                nv[f"{tn[-1]}/{op}/{cs[1]}"] = float(fp())
+                if len(cs) > 2:
+                    nv[f"{allp}{op}/{cs[2]}"] = float(fp())
         elif kind == 'node_values':
             nn = rnd.choice(names)
             op = spec.nodes[nn].ops[0]
@@ -179,8 +203,10 @@ def gen_history(spec, fp, rnd, length, hier, force=None):
             exp.edges[i] = EdgeSpec(e.src, e.tgt, v, e.delay, e.spread, e.template, e.edge_overrides)
     # node_values given at apply time win over template values; replay them last in the expectation
     for pth, v in kw.get('node_values', {}).items():
-        nn, op, var = pth.rsplit('/', 2)
-        exp.nodes[nn].overrides[(op, var)] = F(v)
+        tn, op, var = addressed(spec, pth)
+        vs = list(v) if hasattr(v, 'shape') else [v] * len(tn)
+        for nn, x in zip(tn, vs):
+            exp.nodes[nn].overrides[(op, var)] = F(float(x))
     for (s, t), d in kw.get('edge_values', {}).items():
         for i, e in enumerate(exp.edges):
             if (e.src, e.tgt) == (s, t):
@@ -257,7 +283,7 @@ def job_fn(job):
     if job.get('derive'):
         return derive_job(job)
     rnd = random.Random(job['seed'])
-    spec, fp = base_spec(job['shared'], job['hier'], same_sub=job.get('same_sub', False))
+    spec, fp = base_spec(job['shared'], job['hier'], same_sub=job.get('same_sub', False), homog=job.get('homog', False))
     ops, exp, kw = gen_history(spec, fp, rnd, job['length'], job['hier'], job.get('force'))
     j = dict(job)
     j['spec'] = exp
@@ -310,12 +336,14 @@ def run(tier='quick', seed=0, only=None, verbose=False):
                              shared=bool(i % 2), hier=False, length=1 + i % 3, vectorize=vec, force='add-edge',
                              spec=base_spec(bool(i % 2), False)[0]))
     for i in range(2 if tier == 'quick' else 12):
-        for force in ('zero', 'override-twice'):
+        for force in ('zero', 'override-twice', 'node_values-wild'):
             for vec in (True, False):
                 hier = bool(i % 2)
+                hm = force == 'node_values-wild'
                 jobs.append(dict(key=f"{force}:{seed}:{i}:shared={bool((i // 2 + 1) % 2)}:hier={hier}|vec={vec}",
                                  seed=seed * 1000 + 700 + i, shared=bool((i // 2 + 1) % 2), hier=hier, length=1 + i % 2,
-                                 vectorize=vec, force=force, spec=base_spec(bool((i // 2 + 1) % 2), hier)[0]))
+                                 vectorize=vec, force=force, homog=hm,
+                                 spec=base_spec(bool((i // 2 + 1) % 2), hier, homog=hm)[0]))
     for i in range(2 if tier == 'quick' else 16):
         for vec in (True, False):
             jobs.append(dict(key=f"samesub:{seed}:{i}:shared={bool(i % 2)}|vec={vec}", seed=seed * 1000 + 300 + i,
